@@ -64,6 +64,7 @@ EXTRA_OWNERS = {
     "C07": ("nested_checkpoint_scan", "_inner_nested_scan", "build_init_and_step_fn"),
     "C06": ("build_init_and_step_fn",),
     "C02": ("Network._init_morph_jaxley_spsolve", "Cell._init_morph_jaxley_spsolve", "remap_index_to_masked", "merge_cells",
+            "Network._init_morph_jax_spsolve", "Cell._init_morph_jax_spsolve",
             "step_voltage_implicit_with_jaxley_spsolve", "step_voltage_implicit_with_jax_spsolve"),
     "C12": ("merge_cells", "remap_to_consecutive", "compute_children_and_parents", "Network._init_morph_jaxley_spsolve",
             "Network._init_morph_jax_spsolve", "remap_index_to_masked", "compute_children_in_level", "compute_parents_in_level"),
@@ -938,6 +939,58 @@ def lost_updates(repo, col, prop):
     col.rule(R, "no lost updates of local variables", 1)
 
 
+def _loop_leaks(fn):
+    """(name, read, first loop, second loop): `name` is bound only inside the body of loop L1 and is read inside a LATER loop L2 of
+    the same function before L2 binds it -- L2 then works with whatever the last iteration of L1 left behind."""
+    out = []
+    body = fn.body
+
+    def assigned(node):
+        return {x.id for x in ast.walk(node) if isinstance(x, ast.Name) and isinstance(x.ctx, ast.Store)}
+    loops = [(i, st) for i, st in enumerate(body) if isinstance(st, (ast.For, ast.While))]
+    params = {x.arg for x in ast.walk(fn.args) if isinstance(x, ast.arg)}
+    for a, (i1, l1) in enumerate(loops):
+        for (i2, l2) in loops[a + 1:]:
+            outside = set()
+            for st in body[:i1] + body[i1 + 1:i2]:
+                if not isinstance(st, (ast.For, ast.While)):
+                    outside |= assigned(st)
+            inner1 = set()
+            for st in l1.body:
+                inner1 |= assigned(st)
+            tgt2 = assigned(l2.target) if isinstance(l2, ast.For) else set()
+            for nm in sorted(inner1 - outside - params - tgt2):
+                stores = [(x.lineno, x.col_offset) for st in l2.body for x in ast.walk(st)
+                          if isinstance(x, ast.Name) and x.id == nm and isinstance(x.ctx, ast.Store)]
+                loads = [(x.lineno, x.col_offset, x) for st in l2.body for x in ast.walk(st)
+                         if isinstance(x, ast.Name) and x.id == nm and isinstance(x.ctx, ast.Load)]
+                if loads and (not stores or min(loads)[:2] < min(stores)):
+                    out.append((nm, min(loads)[2], l1, l2))
+    return out
+
+
+def loop_leaks(repo, col, prop):
+    """A per-iteration temporary of one loop that a later loop reads without setting it (the line that set it was lost in a
+    copy / clean-up): the later loop silently uses the value of the LAST iteration of the earlier loop -- e.g. the compartment
+    offset of the last cell for every cell."""
+    R = f"R-{prop}-loopleak"
+    probe = ast.parse("def f(cells):\n    for c in cells:\n        off = c.n\n        a(off)\n    for c in cells:\n        b(off)").body[0]
+    if len(_loop_leaks(probe)) != 1:
+        raise AnalysisError("loop-leak detector does not recognise its reference example")
+    sc, ents, _ = scope(repo, prop)
+    n = 0
+    for fi in repo.all_functions():
+        if (fi.file, fi.qual) not in sc or fi.file in SKIP_FILES:
+            continue
+        n += 1
+        for nm, rd, l1, l2 in _loop_leaks(fi.node):
+            col.bad(R, fi, f"{fi.qual}: `{nm}` is set in the loop that reads it",
+                    f"the loop at line {l2.lineno} reads `{nm}` (line {rd.lineno}) but never sets it before; `{nm}` is a per-iteration value of the "
+                    f"loop at line {l1.lineno}, so every iteration here sees the value of that loop's LAST iteration", node=rd)
+    col.ok(R, "jaxley", f"{n} functions: no loop reads a per-iteration temporary of an earlier loop", "")
+    col.rule(R, "no loop works with the leftovers of an earlier loop", 1)
+
+
 def T_find_key(t, key):
     for z in t.walk():
         if z.key() == key:
@@ -991,5 +1044,6 @@ def run_all(prop, repo, col, tier):
     empty_guards(repo, col, prop)
     membership_guards(repo, col, prop)
     lost_updates(repo, col, prop)
+    loop_leaks(repo, col, prop)
     if pending is not None:
         raise pending
